@@ -437,7 +437,32 @@ func genCase(t *rapid.T) Case {
 			// always the explicit own prefix, so that the reference means the same in every module
 			vis = append(vis, gref{m.Prefix + ":" + gr.Name, gr})
 		}
-		x.vis = vis
+		x.vis = append([]gref(nil), vis...)
+		// a grouping of the same local name in every module, each one extending the one it imports ("uses m0:gshared"
+		// inside "grouping gshared"): the prefix decides which grouping is meant, there is no cycle
+		if g.Chance(1, 2, "gshared") {
+			gr := &sg.Grouping{Name: "gshared", Kids: []*sg.Node{x.leaf(x.id("gs"))}}
+			gr.Kids[0].Mandatory = ""
+			for _, imp := range m.Imports {
+				for _, om := range mods {
+					if om.Name != imp.Mod {
+						continue
+					}
+					for _, og := range om.Groupings {
+						if og.Name == "gshared" && len(gr.Kids) == 1 {
+							u := &sg.Node{Kind: "uses", Name: imp.Prefix + ":gshared"}
+							if g.Bool("gsharednested") {
+								gr.Kids = append(gr.Kids, &sg.Node{Kind: "container", Name: x.id("gsc"), Kids: []*sg.Node{u}})
+							} else {
+								gr.Kids = append(gr.Kids, u)
+							}
+						}
+					}
+				}
+			}
+			m.Groupings = append(m.Groupings, gr)
+			vis = append(vis, gref{m.Prefix + ":gshared", gr})
+		}
 		nt := 1 + g.Pick(2, "ntop")
 		for k := 0; k < nt; k++ {
 			top := &sg.Node{Kind: "container", Name: fmt.Sprintf("m%d-top%d", i, k)}
